@@ -35,7 +35,7 @@ fn f64_to_rat(x: f64) -> Option<Rat> {
 }
 
 /// Element types the meshes are instantiated at.
-pub trait MV: Copy + Clone + ohsl::Number + std::fmt::Debug + 'static {
+pub trait MV: Copy + Clone + ohsl::Number + std::fmt::Debug + Send + Sync + 'static {
     const NAME: &'static str;
     const F64: bool;
     fn mk(d: i64, sv: i64) -> Self;
